@@ -528,19 +528,25 @@ def state_trace(case, obs):
 
 # ------------------------------------------------------------------ worlds for the synthetic families
 
-def roots_monotone(k, counts, t, cls, out):
-    """list k: candidates before index t fail at max height, candidate t has class cls, later ones are more feasible"""
+def roots_monotone(k, counts, t, cls, out, near=None):
+    """list k: candidates before index t fail at max height, candidate t has class cls, later ones are more feasible.
+    near="pred": the candidate just before t misses the limit at max height by a hair (excess ~ +5e-5 K);
+    near="first": candidate t meets it by a hair (excess ~ -5e-5 K)"""
     for i, c in enumerate(counts):
         key = "0:1" if c == 1 else f"{k}:{c}"
         if i < t:
             h0 = HMAX + (t - i) * 3.0 + IRR
+            if near == "pred" and i == t - 1:
+                h0 = HMAX + 5.0e-5
         else:
             if cls == "B":
                 top = HMIN - 5.0 - IRR
             else:
                 top = HMIN + {"I1": 0.1, "I5": 0.5, "I9": 0.9}[cls] * (HMAX - HMIN) + IRR
             h0 = top - (i - t) * 2.0
-        out[key] = h0 - 0.37 * k  # distinct fields never tie (a tie in excess between two fields is as unphysical as 0.0)
+            if near == "first" and i == t:
+                h0 = HMAX - 5.0e-5
+        out[key] = h0 - (0.37 * k if not (near and abs(h0 - HMAX) < 1e-3) else 0.0)  # distinct fields never tie (a tie in excess between two fields is as unphysical as 0.0)
     return out
 
 
@@ -581,6 +587,20 @@ def expand(chunk):
                             yield {"fam": fam, "method": method, "synthetic": [counts], "cap": cap, "cont": cont,
                                    "flow": chunk.get("flow", "borehole"),
                                    "world": {"kind": "roots", "roots": roots, **wv}, "t": t, "cls": cls}
+    elif fam == "A1E":
+        # a candidate that misses / meets the limit at max height by 0.05 mK: the sign of a tiny excess still decides
+        n = chunk["n"]
+        counts = list(range(1, n + 1))
+        for t in range(0, n + 1):
+            for near in ("pred", "first"):
+                if (near == "pred" and t == 0) or (near == "first" and t == n):
+                    continue
+                roots = roots_monotone(0, counts, t, "I5", {}, near=near)
+                for cap in (None, counts[min(t, n - 1)] + 1):
+                    for cont in (False, True):
+                        for wv in WVARS:
+                            yield {"fam": fam, "method": method, "synthetic": [counts], "cap": cap, "cont": cont, "flow": chunk.get("flow", "borehole"),
+                                   "world": {"kind": "roots", "roots": roots, **wv}, "t": t, "near": near}
     elif fam == "A1Z":
         n = chunk["n"]
         counts = list(range(1, n + 1))
